@@ -751,8 +751,8 @@ func handleBatchWriteRequestError(table string, req types.WriteRequest, unproces
 
 // TransactWriteItems mock response for dynamodb
 func (fd *Client) TransactWriteItems(ctx context.Context, input *dynamodb.TransactWriteItemsInput, opts ...func(*dynamodb.Options)) (*dynamodb.TransactWriteItemsOutput, error) {
-	if fd.failureErr() != nil {
-		return nil, ErrForcedFailure
+	if err := fd.failureErr(); err != nil {
+		return nil, err
 	}
 
 	//TODO: Implement transact write
